@@ -37,6 +37,7 @@ def direction_trace(case, obs, wsid, rsid):
     res = {(r[0], r[1], r[2]): r[3] for r in obs["res"]}
     tl = []
     order = [0, 1] if cfg["mode"] == "remote" else [0]
+    offered = F.resolve_offers(case, obs)
     bg_data = {}
     for st in case["steps"]:
         for cmds in st.get("hosts", {}).values():
@@ -52,7 +53,9 @@ def direction_trace(case, obs, wsid, rsid):
                 r = res.get((k, h, i))
                 nm = cmd[0]
                 if nm in ("try_write", "write") and cmd[1] == wsid:
-                    tl.append(("w", cmd[2], r, nm, k))
+                    tl.append(("w", F.expand(cmd[2]), r, nm, k))
+                elif nm in ("try_write_rest", "write_rest") and cmd[1] == wsid and (k, h, i) in offered:
+                    tl.append(("w", F.expand(offered[(k, h, i)]), r, nm, k))
                 elif nm == "shutdown" and cmd[1] == wsid:
                     tl.append(("shutdown", r, k))
                 elif nm in ("drop", "drop_w") and cmd[1] == wsid and r == "none":
@@ -68,7 +71,8 @@ def direction_trace(case, obs, wsid, rsid):
             # a task awaiting write_all completes at the end of its host's turn
             for b in obs.get("bg", []):
                 if b[0] == k and b[1] == h and b[2] == wsid and b[2] in bg_data:
-                    tl.append(("w", bg_data[b[2]], b[3], "write_bg", k))
+                    tl.append(("w", F.expand(bg_data[b[2]]), [b[3][0], len(F.expand(bg_data[b[2]]))] if b[3][0] == "ok" else b[3],
+                               "write_bg", k))
     return tl
 
 
@@ -97,7 +101,7 @@ def c02_oracle_dir(case, obs, wsid, rsid, label):
         elif e[0] == "w":
             _, data, r, nm, k = e
             if isinstance(r, list) and r[0] == "ok":
-                if r[1] != len(data):
+                if r[1] > len(data):
                     out.append(("%s: write of %d bytes accepted %s" % (label, len(data), r[1]), None))
                 if data:
                     pulled = sum(1 for s0 in seg_starts if s0 < high)
@@ -380,6 +384,11 @@ class Spec(PropSpec):
                 cases.append(F.gen_parked(ctx.rng) if (i // 6) % 3 else F.gen_blocked_writer(ctx.rng))
             else:
                 cases.append(F.gen_random(ctx.rng) if r % 2 else F.gen_complete(ctx.rng))
+        # large writes are expensive to evaluate in the model: spread them over the coqc shards
+        nl = 14 if quick else 160
+        gap = max(1, len(cases) // (nl + 1))
+        for i in range(nl):
+            cases.insert(min(len(cases), (i + 1) * gap + i), F.gen_large(ctx.rng))
         return cases
 
     def to_model(self, case, obs):
